@@ -11,6 +11,8 @@
 (*                                   an abstract tree                      *)
 (*   reload  Netlist(that text)      acc, obs                              *)
 (*   resave  write_yaml() again      ok, yd, yd1 = digest of the first text*)
+(*   freload / fresave               the same through FILES:               *)
+(*           write_yaml(path), Netlist(path), write_yaml(path2)            *)
 (*   defect  Netlist(T.doc + patch)  patch, acc                            *)
 (*                                                                         *)
 (* obs = the netlist seen through its public accessors, pulled back to the *)
@@ -129,7 +131,7 @@ StepSave ==
   /\ drift' = drift \cup (IF E.ok = 1 /\ (E.parsed = 0 \/ E.y # Write(n)) THEN Tag({"written_tree_differs_from_model"}) ELSE {})
 
 StepReload ==
-  /\ E.op = "reload"
+  /\ E.op \in {"reload", "freload"}      \* freload: Netlist(path) of the FILE written by write_yaml(path)
   /\ n2' = Read(y).n /\ phase' = "reloaded" /\ UNCHANGED <<lvl, doc, n, y, y2, inj>>
   /\ IF E.acc = 0 THEN fails' = fails \cup Tag({"reload_rejected"}) /\ drift' = drift
      ELSE IF ~FirstObsOK THEN fails' = fails /\ drift' = drift \cup Tag({"no_first_observation"})
@@ -137,7 +139,7 @@ StepReload ==
           /\ drift' = drift \cup (IF StripObs(E.obs) = Read(y).n THEN {} ELSE Tag({"reloaded_netlist_differs_from_model"}))
 
 StepResave ==
-  /\ E.op = "resave"
+  /\ E.op \in {"resave", "fresave"}      \* fresave: the two files compared byte for byte
   /\ y2' = Write(n2) /\ phase' = "resaved" /\ UNCHANGED <<lvl, doc, n, y, n2, inj>>
   \* writing is repeatable: the identical document (text digests compared)
   /\ fails' = fails \cup (IF E.ok = 1 /\ E.yd = E.yd1 THEN {} ELSE Tag({"repeatable"}))
